@@ -69,6 +69,10 @@ pub struct RunStats {
     pub clock_jumps: u64,
     #[serde(default)]
     pub teardown_ops: u64,
+    /// threads the library itself started inside a call and that the simulator took under its
+    /// control through the thread-creation seam
+    #[serde(default)]
+    pub library_threads: u64,
     pub hash_rekey: u64,
     pub poison_ops: BTreeMap<String, u64>,
     pub caught_panic_same: u64,
@@ -165,6 +169,13 @@ struct State {
 }
 
 struct Shared {
+    /// set when the scenario is over: threads the library started and that are still around are
+    /// released from the baton discipline (they run on freely, as they would without the seam)
+    finished: std::sync::atomic::AtomicBool,
+    /// threads started by the library itself wait for the baton here (they must not use
+    /// thread::park: std has not set up their thread handle yet when they register)
+    dyn_lock: Mutex<()>,
+    dyn_cv: std::sync::Condvar,
     scen: Scenario,
     env: Env,
     st: Mutex<State>,
@@ -176,6 +187,8 @@ struct Shared {
 thread_local! {
     static CTX: RefCell<Option<(Arc<Shared>, usize)>> = const { RefCell::new(None) };
     static SUPPRESS: Cell<bool> = const { Cell::new(false) };
+    /// the scheduler itself is creating a simulated thread: the thread-creation seam stays out
+    static IN_SIM_SPAWN: Cell<bool> = const { Cell::new(false) };
 }
 
 enum Point {
@@ -209,7 +222,20 @@ impl Shared {
         }
     }
 
+    fn is_dynamic(&self, t: usize) -> bool {
+        t != MAIN && t >= self.scen.threads.len()
+    }
+
     fn wait_baton(&self, me: usize) {
+        if self.is_dynamic(me) {
+            let mut g = self.dyn_lock.lock().unwrap_or_else(|e| e.into_inner());
+            while self.baton.load(Ordering::Acquire) != me && !self.finished.load(Ordering::Acquire) {
+                // (no timeout: timed waits are distorted by clock jumps; every hand-off and the end
+                // of the scenario notify)
+                g = self.dyn_cv.wait(g).unwrap_or_else(|e| e.into_inner());
+            }
+            return;
+        }
         while self.baton.load(Ordering::Acquire) != me {
             thread::park();
         }
@@ -225,7 +251,7 @@ impl Shared {
             if let Some(t) = (0..n).find(|t| st.th[*t].life == Life::NotStarted) {
                 st.stats.forced_start += 1;
                 cand.push(t);
-            } else if let Some(t) = (0..n).find(|t| st.th[*t].life == Life::Live && st.th[*t].blocked) {
+            } else if let Some(t) = (0..n.min(self.scen.threads.len())).find(|t| st.th[*t].life == Life::Live && st.th[*t].blocked) {
                 // only threads classified as blocked are left: whoever held their lock is gone,
                 // so the first of them owns the baton again
                 st.th[t].blocked = false;
@@ -310,6 +336,7 @@ impl Shared {
                 Start::AtBegin => {}
             }
             let sh = self.clone();
+            IN_SIM_SPAWN.with(|f| f.set(true));
             let jh = thread::Builder::new()
                 .name(format!("sim{}", to))
                 .stack_size(match self.scen.threads[to].stack_kb {
@@ -318,8 +345,12 @@ impl Shared {
                 })
                 .spawn(move || sim_thread(sh, to))
                 .expect("spawn sim thread");
+            IN_SIM_SPAWN.with(|f| f.set(false));
             st.th[to].handle = Some(jh.thread().clone());
             st.th[to].join = Some(jh);
+        } else if self.is_dynamic(to) {
+            let _g = self.dyn_lock.lock().unwrap_or_else(|e| e.into_inner());
+            self.dyn_cv.notify_all();
         } else if let Some(h) = &st.th[to].handle {
             h.unpark();
         }
@@ -343,6 +374,9 @@ impl Shared {
     }
 
     fn sched_point(self: &Arc<Self>, me: usize, p: Point) {
+        if self.finished.load(Ordering::Acquire) {
+            return;
+        }
         self.progress.fetch_add(1, Ordering::Relaxed);
         self.rejoin(me);
         let mut st = self.st.lock().unwrap_or_else(|e| e.into_inner());
@@ -637,7 +671,7 @@ fn sim_thread_inner(sh: Arc<Shared>, me: usize) {
                     }
                 }
             }
-            let inst = op.uses_inst() || op.is_big();
+            let inst = op.uses_inst() || op.suppress_yields();
             if inst {
                 SUPPRESS.with(|s| s.set(true));
             }
@@ -678,6 +712,113 @@ fn sim_thread_inner(sh: Arc<Shared>, me: usize) {
     }
     sh.finish(me);
     CTX.with(|c| *c.borrow_mut() = None);
+}
+
+// ---------------------------------------------------------------------------------------------
+// thread-creation seam (see sim/fakeclock.c): threads the library starts inside a call
+
+static PENDING: Mutex<Vec<(i64, Arc<Shared>, usize)>> = Mutex::new(Vec::new());
+static NEXT_TOKEN: AtomicU64 = AtomicU64::new(1);
+
+extern "C" fn seam_on_create() -> i64 {
+    if IN_SIM_SPAWN.with(|f| f.get()) {
+        return -1;
+    }
+    // only threads created by a simulated thread, i.e. from inside a library call
+    let ctx = CTX.with(|c| c.borrow().as_ref().map(|(sh, me)| (sh.clone(), *me)));
+    let (sh, _parent) = match ctx {
+        Some(x) => x,
+        None => return -1,
+    };
+    if sh.finished.load(Ordering::Acquire) {
+        return -1;
+    }
+    let mut st = sh.st.lock().unwrap_or_else(|e| e.into_inner());
+    if st.th.len() >= 250 {
+        return -1;
+    }
+    st.th.push(ThState { life: Life::Live, handle: None, join: None, view: Foot::default(), last_foot: None, blocked: false, tid: 0, current: None });
+    let id = st.th.len() - 1;
+    if !st.prio.is_empty() {
+        // PCT schedule: the newcomer gets the highest or the lowest priority (drawn from the
+        // schedule PRNG, so that it is part of the replayable schedule)
+        let p = if st.rng.pct(50) {
+            st.prio.iter().copied().max().unwrap_or(0) + 1
+        } else {
+            st.low_water -= 1;
+            st.low_water
+        };
+        st.prio.push(p);
+    }
+    st.stats.library_threads += 1;
+    if st.tracing {
+        st.trace.push(format!("library thread t{} created", id));
+    }
+    drop(st);
+    let token = NEXT_TOKEN.fetch_add(1, Ordering::Relaxed) as i64;
+    PENDING.lock().unwrap_or_else(|e| e.into_inner()).push((token, sh, id));
+    token
+}
+
+extern "C" fn seam_child_start(token: i64) {
+    let entry = {
+        let mut p = PENDING.lock().unwrap_or_else(|e| e.into_inner());
+        p.iter().position(|e| e.0 == token).map(|i| p.swap_remove(i))
+    };
+    if let Some((_, sh, id)) = entry {
+        let tid = unsafe { syscall(186) };
+        sh.st.lock().unwrap_or_else(|e| e.into_inner()).th[id].tid = tid;
+        CTX.with(|c| *c.borrow_mut() = Some((sh.clone(), id)));
+        a5::verif::set_yield_hook(Some(yield_hook));
+        // the new thread starts parked: it runs when the scheduler picks it
+        sh.wait_baton(id);
+    }
+}
+
+extern "C" fn seam_child_exit(token: i64) {
+    if token < 0 {
+        // creation failed after registration: retire the entry
+        let t = -token - 2;
+        let entry = {
+            let mut p = PENDING.lock().unwrap_or_else(|e| e.into_inner());
+            p.iter().position(|e| e.0 == t).map(|i| p.swap_remove(i))
+        };
+        if let Some((_, sh, id)) = entry {
+            sh.st.lock().unwrap_or_else(|e| e.into_inner()).th[id].life = Life::Exited;
+        }
+        return;
+    }
+    let ctx = CTX.with(|c| c.borrow_mut().take());
+    a5::verif::set_yield_hook(None);
+    if let Some((sh, id)) = ctx {
+        if sh.finished.load(Ordering::Acquire) {
+            return;
+        }
+        let holds = sh.baton.load(Ordering::Acquire) == id;
+        {
+            let mut st = sh.st.lock().unwrap_or_else(|e| e.into_inner());
+            st.th[id].life = Life::Exited;
+            st.th[id].blocked = false;
+        }
+        if holds {
+            sh.sched_point(id, Point::Exit);
+        }
+    }
+}
+
+fn init_thread_seam() {
+    static ONCE: std::sync::Once = std::sync::Once::new();
+    ONCE.call_once(|| {
+        extern "C" {
+            fn dlsym(handle: *mut u8, name: *const u8) -> *mut u8;
+        }
+        let f = unsafe { dlsym(std::ptr::null_mut(), b"a5sim_set_thread_callbacks\0".as_ptr()) };
+        if !f.is_null() {
+            type Setter = extern "C" fn(extern "C" fn() -> i64, extern "C" fn(i64), extern "C" fn(i64));
+            let set: Setter = unsafe { std::mem::transmute(f) };
+            set(seam_on_create, seam_child_start, seam_child_exit);
+        }
+    });
 }
 
 /// Run one scenario under one schedule. Blocks until every simulated thread has exited.
@@ -726,7 +867,11 @@ pub fn run(scen: &Scenario, schedule: Schedule, tracing: bool) -> RunOut {
             st.change_points.push(c);
         }
     }
+    init_thread_seam();
     let sh = Arc::new(Shared {
+        finished: std::sync::atomic::AtomicBool::new(false),
+        dyn_lock: Mutex::new(()),
+        dyn_cv: std::sync::Condvar::new(),
         scen: scen.clone(),
         env: Env::new(scen.n_inst.max(1) as usize, scen.n_crs.max(1) as usize),
         st: Mutex::new(st),
@@ -742,8 +887,14 @@ pub fn run(scen: &Scenario, schedule: Schedule, tracing: bool) -> RunOut {
         // CLOCK_MONOTONIC_RAW: the scenario may make the ordinary clocks jump
         let mut since = crate::procs::raw_now_ns();
         let mut asleep_polls = 0u32;
+        let mut polls = 0u64;
         while sh.baton.load(Ordering::Acquire) != MAIN {
-            thread::park_timeout(Duration::from_millis(2));
+            // (a relative sleep: timed parks use absolute deadlines that a clock jump would distort)
+            crate::procs::raw_sleep_us(200);
+            polls += 1;
+            if polls % 10 != 0 {
+                continue;
+            }
             let p = sh.progress.load(Ordering::Relaxed);
             if p != last {
                 last = p;
@@ -777,6 +928,9 @@ pub fn run(scen: &Scenario, schedule: Schedule, tracing: bool) -> RunOut {
                         st.th[holder].blocked = true;
                         st.stats.blocked_handoffs += 1;
                         let chosen = sh.decide(&mut st, holder, false, 100);
+                        if std::env::var_os("A5SIM_DEBUG_STALL").is_some() {
+                            eprintln!("DEBUG-WATCHDOG seed={} t{} blocked -> t{} (decisions {})", scen.seed, holder, chosen as isize, st.decisions.len());
+                        }
                         if st.tracing {
                             let d = st.decisions.len().saturating_sub(1);
                             st.trace.push(format!("d{} t{} blocked (watchdog) -> t{}", d, holder, chosen as isize));
@@ -791,6 +945,12 @@ pub fn run(scen: &Scenario, schedule: Schedule, tracing: bool) -> RunOut {
                     }
                 }
                 drop(st);
+            }
+            if idle > Duration::from_secs(3) && std::env::var_os("A5SIM_DEBUG_STALL").is_some() {
+                let st = sh.st.lock().unwrap_or_else(|e| e.into_inner());
+                let b = sh.baton.load(Ordering::Acquire);
+                let desc: Vec<String> = st.th.iter().enumerate().map(|(i, t)| format!("t{}:{:?}{}{} tid={} sleeps={}", i, t.life, if t.blocked { "/blocked" } else { "" }, if sh.is_dynamic(i) { "/lib" } else { "" }, t.tid, thread_sleeps(t.tid))).collect();
+                eprintln!("DEBUG-STALL seed={} baton={} decisions={} abort={} {}", scen.seed, b as isize, st.decisions.len(), st.abort, desc.join(" | "));
             }
             if idle > Duration::from_secs(stall_secs()) {
                 if scen.yield_mask != 0 {
@@ -831,6 +991,11 @@ pub fn run(scen: &Scenario, schedule: Schedule, tracing: bool) -> RunOut {
         let mut st = sh.st.lock().unwrap_or_else(|e| e.into_inner());
         st.th.iter_mut().filter_map(|t| t.join.take()).collect()
     };
+    sh.finished.store(true, Ordering::Release);
+    {
+        let _g = sh.dyn_lock.lock().unwrap_or_else(|e| e.into_inner());
+        sh.dyn_cv.notify_all();
+    }
     let broken = {
         let st = sh.st.lock().unwrap_or_else(|e| e.into_inner());
         st.harness_error.is_some() || st.hung
